@@ -268,6 +268,14 @@ class ExprMixin(EngineCore):
             conj = []
             for k, op in enumerate(e.ops):
                 x, y = vals[k], vals[k + 1]
+                if not isinstance(op, (ast.Is, ast.IsNot)):
+                    x, y = self.strip_opt(s, x), self.strip_opt(s, y)  # an optional whose None-ness the path has decided
+                if isinstance(op, (ast.Eq, ast.NotEq)) and isinstance(x, Opt) != isinstance(y, Opt) and x is not None and y is not None:
+                    # `maybe_none == value`: None equals no value
+                    o, v = (x, y) if isinstance(x, Opt) else (y, x)
+                    r = z3.And(z3.Not(o.isnone), ops.truth(s, self.compare_ext(s, ast.Eq(), o.val, v)))
+                    conj.append(r if isinstance(op, ast.Eq) else z3.Not(r))
+                    continue
                 if isinstance(op, (ast.In, ast.NotIn)) and isinstance(x, Opt) and isinstance(y, tuple) and all(not isinstance(i, Opt) and i is not None for i in y):
                     # `maybe_none in (constants...)`: None is simply not a member
                     inner = self.compare_ext(s, ast.In(), x.val, y)
